@@ -1,6 +1,6 @@
 """C19 - acquisition geometries are rigid-motion consistent for all parameters.
 
-Three kinds of generated cases:
+Five kinds of generated cases:
 
 ``geom``     one geometry (Parallel2d / Parallel3dAxis / Parallel3dEuler /
              FanBeam / ConeBeam; constructor or ``frommatrix``; generic axes,
@@ -16,6 +16,10 @@ Three kinds of generated cases:
              ``astra_setup.py`` (cone_vec, fanflat_vec, parallel3d_vec) for
              generated flat-detector Fan / Cone / Parallel3dAxis / Euler
              geometries with off-centre detector partitions.
+``util``     the documented rotation helpers of ``odl.tomo.util.utility``
+             called directly (euler_matrix with 1-3 angles / ``None`` /
+             broadcast shapes, axis_rotation_matrix, axis_rotation with
+             ``axis_shift``, rotation_matrix_from_to, perpendicular_vector).
 
 Oracle: the NumPy reference model ``vlib/ref/geomref.py`` +
 ``vlib/ref/rotations.py`` (written from the docstrings, evaluated one
@@ -50,6 +54,24 @@ Deviations from DESIGN.md section 5 (C19):
   repaired in /repo, the clauses run on every case);
 * curved 3-D detectors are only generated with exactly perpendicular
   integer axes (the library compares the dot product with 0.0 exactly).
+* call-history clause (every geom / detector case): the property quantifies
+  over parameter VALUES, so a result must not depend on earlier calls, on
+  the identity of the argument objects or on what the caller did with
+  earlier results.  All evaluation methods are called three times through
+  ONE set of argument objects (contiguous buffers incl. 0-d arrays / strided
+  views of larger arrays / read-only arrays and NumPy scalars / nested
+  lists with integer-valued entries as Python ints): first values; the same
+  objects overwritten in place with other values and the methods in a
+  permuted order (values must be those of the
+  reference model for the NEW contents, arguments must come back
+  unmodified, arrays returned earlier must not change); again after the
+  caller has overwritten the arrays the geometry-level methods returned.
+* ``geom.angles`` is passed directly to the evaluation methods (documented:
+  "can be used directly as input to any of the other methods"), derived
+  parameter sets (``partition``, ``params``, ``grid``, ``det_grid`` ...) and
+  ``det_curvature_radius`` are compared with the constructor arguments,
+  out-of-bounds rejection is also demanded for ONE offending entry inside an
+  array, and the rotation helpers are called directly (kind ``util``).
 """
 import os
 import traceback
@@ -67,19 +89,24 @@ from odl.tomo.geometry import detector as odl_det  # noqa: E402
 
 PROPERTY = 'C19'
 TECHNIQUE = ('Hypothesis property-based testing: generated geometry / '
-             'detector / factory descriptors against an independent NumPy '
-             'reference model (Rodrigues, ZXZ Euler, documented detector '
-             'surfaces and trajectories), metamorphic relations between the '
-             'geometry methods, vectorised-vs-single differential, corner '
-             'projection for the factories; descriptor replay')
+             'detector / factory / rotation-helper descriptors against an '
+             'independent NumPy reference model (Rodrigues, ZXZ Euler, '
+             'documented detector surfaces and trajectories), metamorphic '
+             'relations between the geometry methods, vectorised-vs-single '
+             'differential, call-history independence (argument objects '
+             'refilled in place, permuted call order, results overwritten by '
+             'the caller), corner projection for the factories; descriptor '
+             'replay')
 LEVEL_TEXT = ('Generated-input search over class x constructor/frommatrix x '
               'initial-vector regime (default, dilated, antiparallel, '
               'axis-aligned, generic) x detector kind (flat, circular, '
               'cylindrical, spherical) x helical/shift options x parameter '
-              'shape pattern x check_bounds x slicing; every value returned '
-              'by ODL is compared with a reference that never imports odl, '
-              'every vectorised call with the stack of single calls. '
-              'Exploration, not proof.')
+              'shape pattern x check_bounds x slicing x argument container '
+              '(buffer / strided view / read-only / list) x call order; '
+              'every value returned by ODL is compared with a reference '
+              'that never imports odl, every vectorised call with the stack '
+              'of single calls, and every method again after its argument '
+              'objects were overwritten in place. Exploration, not proof.')
 LEVEL_NOTE = ('Trusted: NumPy, Hypothesis, vlib/ref/rotations.py and '
               'vlib/ref/geomref.py (formulas quoted from the docstrings), '
               'odl partitions (property C14) for the angle grid. The ASTRA '
@@ -108,6 +135,16 @@ TOLERANCES = {
     'finite_differences': 'central difference, h = 1e-5*extent: '
                           '10*(h^2*r/6 + eps*S/h) + 64*eps*S',
     'slicing': 'angles exact; values 64*eps*S',
+    'history': 'values after the in-place refill vs the reference model: the '
+               'bounds of positions / directions above (rotation_matrix '
+               '64*eps*(1+|angle|max), surface_normal 64*eps*amp, '
+               'surface_measure positions*(1+radius)); at most 12 entries '
+               'per call are compared (first, last, evenly spaced); argument '
+               'objects and earlier results are compared bit for bit',
+    'util': 'rotation helpers 64*eps*(1+|angle|) (x coordinate scale for '
+            'axis_rotation); rotation_matrix_from_to 12*64*eps (vectors keep '
+            '>= 0.1 rad from collinear); perpendicular_vector '
+            '|dot| <= 8*eps*|v||w|',
     'factory_coverage': 'corner parameter inside det_params up to '
                         '1e-9*(extent+1); sampling inequalities up to a '
                         'relative 1e-9',
@@ -125,13 +162,22 @@ ASSUMPTIONS = [
     'are evaluated with scalar and 1-D angles only',
     'negative slicing steps are not generated (partitions must be ascending)',
     'of astra_setup.py only the astra_*_geom_to_vec conversions run (no ASTRA)',
+    'history clause: the caller overwrites only arrays returned by '
+    'geometry-level methods (rotation_matrix, det_refpoint, det_axes, '
+    'src_position, det_point_position, det_to_src); the flat detectors '
+    'document surface_deriv as "evaluating to `axis`" and hand out the stored '
+    'vector for a single parameter, which is not flagged',
+    'second parameter fill of the history clause = first fill shifted by '
+    '0.382 of each parameter interval (mod 1), same shapes',
 ]
-RULE = ('Hypothesis draws a case descriptor (kind geom/detector/factory; '
-        'class, init vectors, partitions, parameter pattern with explicit '
-        'fractions of the parameter intervals, slice). Non-trivial = generic '
-        'axis/init vector/matrix, or array/broadcast parameters, or curved / '
-        'helical / shifted geometry, or a factory on a generated volume; '
-        'distinct by sha1 of the descriptor')
+RULE = ('Hypothesis draws a case descriptor (kind geom / detector / factory '
+        '/ astra-vec / util in the ratio 7:1:1:1:1; class, init vectors, '
+        'partitions, parameter pattern with explicit fractions of the '
+        'parameter intervals, slice, argument container and call order of '
+        'the history clause). Non-trivial = generic axis/init vector/matrix, '
+        'or array/broadcast parameters, or curved / helical / shifted '
+        'geometry, or a factory on a generated volume, or a rotation-helper '
+        'call; distinct by sha1 of the descriptor')
 
 CLS = {
     'par2d': 'Parallel2dGeometry', 'par3d_axis': 'Parallel3dAxisGeometry',
@@ -698,6 +744,21 @@ def check_detector_bounds(det, kind, dlo, dhi, cb, refdet, strata):
                 _require(got, refdet.surface(arg), K_TOL * EPS * S,
                          'C19|bounds|surface|{}|value'.format(dname),
                          'surface outside the partition, check_bounds=False')
+    if cb:
+        # one offending entry inside an array of admissible ones
+        mid = [float(0.5 * (a + b)) for a, b in zip(dlo, dhi)]
+        varg = [np.array([c, c, o]) for c, o in zip(mid, out)]
+        varg = varg[0] if len(varg) == 1 else tuple(varg)
+        for method in ('surface', 'surface_deriv'):
+            try:
+                getattr(det, method)(varg)
+            except ValueError:
+                continue
+            raise Violation(
+                'C19|bounds|{}|{}|no-raise-vectorised'.format(method, dname),
+                'parameter array {} with an entry outside {}..{} accepted '
+                'with check_bounds=True'.format(np.asarray(varg).tolist(),
+                                                dlo, dhi))
     strata.append('bounds:' + ('checked' if cb else 'unchecked'))
 
 
@@ -931,6 +992,28 @@ def run_geom(desc):
                             geom.ndim, geom.check_bounds,
                             geom.detector.check_bounds))
 
+    # derived parameter sets: "motion parameters come before the detector
+    # parameters", `partition` is `det_partition` appended to
+    # `motion_partition`
+    both = apart.append(dpart)
+    for name, got, want in (
+            ('motion_partition', geom.motion_partition, apart),
+            ('det_partition', geom.det_partition, dpart),
+            ('partition', geom.partition, both),
+            ('motion_params', geom.motion_params, apart.set),
+            ('det_params', geom.det_params, dpart.set),
+            ('params', geom.params, both.set),
+            ('motion_grid', geom.motion_grid, apart.grid),
+            ('det_grid', geom.det_grid, dpart.grid),
+            ('grid', geom.grid, both.grid)):
+        if not got == want:
+            raise Violation('C19|init|{}|{}'.format(cname, name),
+                            '{} = {!r} expected {!r}'.format(name, got, want))
+    if divergent and geom.det_curvature_radius != ref.det.radius:
+        raise Violation('C19|init|{}|det_curvature_radius'.format(cname),
+                        'det_curvature_radius {!r} for {!r}'.format(
+                            geom.det_curvature_radius, g.get('curv')))
+
     # ---- detector clauses --------------------------------------------------
     probe = bool(desc.get('probe', True))
     strata.append('probe-known-regions:' + str(probe))
@@ -1118,10 +1201,163 @@ def run_geom(desc):
                      (1 + abs(mout[0])) * amp,
                      'C19|bounds|{}|{}|value'.format(method, cname),
                      method + ' outside the partition, check_bounds=False')
+        if cb:
+            # one offending entry inside an array of admissible ones
+            mmid = [float(0.5 * (a + b)) for a, b in zip(mlo, mhi)]
+            varg = [np.array([c, o, c]) for c, o in zip(mmid, mout)]
+            varg = varg[0] if M == 1 else tuple(varg)
+            for method in ('rotation_matrix', 'det_refpoint'):
+                try:
+                    getattr(geom, method)(varg)
+                except ValueError:
+                    continue
+                raise Violation(
+                    'C19|bounds|{}|{}|no-raise-vectorised'.format(method,
+                                                                  cname),
+                    'angle array {} with an entry outside {}..{} accepted '
+                    'with check_bounds=True'.format(
+                        np.asarray(varg).tolist(), mlo, mhi))
         check_detector_bounds(geom.detector, kind, dlo, dhi, cb, ref.det,
                               strata)
 
+    def history():
+        hist = desc.get('hist') or {}
+        form = hist.get('form', 'buffer')
+        if form not in HIST_FORMS:
+            raise HarnessError('unknown history form {!r}'.format(form))
+        m2 = _params_from_fracs(_second_fracs(pat['m']), mlo, mhi)
+        d2 = _params_from_fracs(_second_fracs(pat['d']), dlo, dhi)
+        fills = [[list(mcomps), list(dcomps)], [m2, d2]]
+        shape_d = _bshape(dcomps)
+        ent_m = [_subset(list(_entries(f[0], shape_m))) for f in fills]
+        ent_d = [_subset(list(_entries(f[1], shape_d))) for f in fills]
+        ent_j = [_subset(list(_entries(list(f[0]) + list(f[1]), shape)))
+                 for f in fills]
+        tol_rot = K_TOL * EPS * A
+
+        def ref_axes(v):
+            a = ref.axes(_single_arg(v))
+            return a[0] if n == 2 else a
+
+        calls = [
+            ('rotation_matrix', geom.rotation_matrix, [0], {}, shape_m,
+             (n, n), _table(ent_m, lambda v: ref.rot(_single_arg(v))),
+             tol_rot),
+            ('det_refpoint', geom.det_refpoint, [0], {}, shape_m, (n,),
+             _table(ent_m, lambda v: ref.refpoint(_single_arg(v))), tol),
+            (axes_name, getattr(geom, axes_name), [0], {}, shape_m,
+             (n,) if n == 2 else (2, 3), _table(ent_m, ref_axes), tol_dir),
+        ]
+        if divergent:
+            calls.append(
+                ('src_position', geom.src_position, [0], {}, shape_m, (n,),
+                 _table(ent_m, lambda v: ref.src(_single_arg(v))), tol))
+        calls.append(
+            ('det_point_position', geom.det_point_position, [0, 1], {},
+             shape, (n,),
+             _table(ent_j, lambda v: ref.detpos(_single_arg(v[:M]),
+                                                _single_arg(v[M:]))), tol))
+        if not divergent:
+            calls.append(
+                ('det_to_src', geom.det_to_src, [0, 1], {}, shape, (n,),
+                 _table(ent_j, lambda v: ref.det2src(_single_arg(v[:M]),
+                                                     _single_arg(v[M:]))),
+                 tol_dir))
+        else:
+            raw = _table(ent_j, lambda v: ref.det2src(
+                _single_arg(v[:M]), _single_arg(v[M:]), normalized=False))
+            calls.append(
+                ('det_to_src:unnormalized', geom.det_to_src, [0, 1],
+                 {'normalized': False}, shape, (n,), raw, tol))
+            unit_memo = {}
+
+            def unit_tables(fill):
+                # entries whose source sits on the detector point have no
+                # direction: not compared
+                if fill not in unit_memo:
+                    vals, tols = {}, {}
+                    for idx, v in raw(fill).items():
+                        ln = float(np.sqrt(np.dot(v, v)))
+                        if ln > 1e-6 * S:
+                            vals[idx] = v / ln
+                            tols[idx] = (tol_dir +
+                                         K_TOL * EPS * A * amp * S / ln)
+                    unit_memo[fill] = (vals, tols)
+                return unit_memo[fill]
+
+            calls.append(
+                ('det_to_src', geom.det_to_src, [0, 1], {}, shape, (n,),
+                 lambda fill: unit_tables(fill)[0],
+                 [unit_tables(0)[1], unit_tables(1)[1]]))
+        calls = [c + (True,) for c in calls]
+        calls += _detector_history_calls(geom.detector, ref.det, D, shape_d,
+                                         ent_d, [1], dsingle['tol'], amp)
+        _check_history(calls, _ParamObjects(fills[0], form), fills, hist,
+                       cname + '|' + dname, strata)
+
+    def angles_direct():
+        # "`geometry.angles` can be used directly as input to any of the
+        # other methods of the geometry": shape (N,) for one motion
+        # parameter, (M, N) otherwise
+        ang = geom.angles
+        grid = apart.grid
+        want = (np.array(grid.coord_vectors[0], dtype=float) if M == 1
+                else np.array(grid.points(), dtype=float).T)
+        if _shape_of(ang) != want.shape or not np.array_equal(ang, want):
+            raise Violation('C19|angles|{}|grid'.format(cname),
+                            'angles {} but the angle partition has the grid '
+                            'points {}'.format(np.asarray(ang).tolist(),
+                                               want.tolist()))
+        cols = np.atleast_2d(want)
+        N = cols.shape[1]
+        ents = [_subset([((k,), [float(v) for v in cols[:, k]])
+                         for k in range(N)])]
+        todo = [('rotation_matrix', (ang,), (n, n),
+                 lambda v: ref.rot(_single_arg(v)), K_TOL * EPS * A),
+                ('det_refpoint', (ang,), (n,),
+                 lambda v: ref.refpoint(_single_arg(v)), tol),
+                (axes_name, (ang,), (n,) if n == 2 else (2, 3),
+                 lambda v: (ref.axes(_single_arg(v))[0] if n == 2
+                            else ref.axes(_single_arg(v))), tol_dir),
+                ('det_point_position', (ang, _single_arg(dmid)), (n,),
+                 lambda v: ref.detpos(_single_arg(v), _single_arg(dmid)),
+                 tol)]
+        if divergent:
+            todo.append(('src_position', (ang,), (n,),
+                         lambda v: ref.src(_single_arg(v)), tol))
+        else:
+            todo.append(('det_to_src', (ang, _single_arg(dmid)), (n,),
+                         lambda v: ref.det2src(_single_arg(v),
+                                               _single_arg(dmid)), tol_dir))
+        for method, args, tail, fn, t in todo:
+            got = _call(pre, '{}|angles'.format(cname), getattr(geom, method),
+                        *args)
+            if _shape_of(got) != (N,) + tail:
+                raise Violation(
+                    'C19|angles|{}|{}|shape'.format(cname, method),
+                    '{}(geom.angles) has shape {} expected {}'.format(
+                        method, _shape_of(got), (N,) + tail))
+            got = np.asarray(got, dtype=float)
+            for idx, want_v in _table(ents, fn)(0).items():
+                ok, err = _close(got[idx], want_v, t)
+                if not ok:
+                    raise Violation(
+                        'C19|angles|{}|{}|value|{}'.format(cname, method,
+                                                           region),
+                        '{}(geom.angles)[{}] = {} reference at angle {}: {} '
+                        '(err {:.3g} tol {:.3g})'.format(
+                            method, idx[0], got[idx].tolist(),
+                            cols[:, idx[0]].tolist(),
+                            np.asarray(want_v).tolist(), err, t))
+            if not np.array_equal(geom.angles, want):
+                raise Violation(
+                    'C19|angles|{}|{}|modified'.format(cname, method),
+                    'geom.angles changed after {}(geom.angles)'.format(
+                        method))
+        strata.append('angles-direct')
+
     col.run(check_detector_vec, geom.detector, kind, dcomps, dsingle, strata)
+    col.run(angles_direct)
     if shape_m != ():
         col.run(vec_motion)
     if shape != ():
@@ -1129,6 +1365,7 @@ def run_geom(desc):
     if M == 1:
         col.run(group_law)
     col.run(bounds)
+    col.run(history)
     bad = pat.get('bad')
     if bad:
         col.run(_check_bad, geom, bad, cname, dname, mlo, mhi, dlo, dhi, M, D)
@@ -1193,6 +1430,291 @@ def _check_bad(geom, bad, cname, dname, mlo, mhi, dlo, dhi, M, D):
         raise Violation('C19|bad-shapes|{}|{}|{}'.format(name, cname, bad),
                         'non-broadcastable parameter shapes accepted, '
                         'result shape {}'.format(_shape_of(out)))
+
+
+# --------------------------------------------------------------------------
+# call history / argument aliasing
+#
+# The property quantifies over parameters, not over call sequences: what a
+# method returns for given parameter VALUES must not depend on which calls
+# were made before, on the identity of the objects that carry the values, or
+# on what the caller did with earlier results.  The clause below evaluates a
+# set of methods three times through ONE set of argument objects:
+#
+#   pass 1  arguments hold the pattern's values (fill A), canonical order;
+#   pass 2  the same objects, overwritten in place with other values
+#           (fill B), methods in a permuted order: results must be the
+#           values for fill B (reference model), the arguments must come
+#           back unchanged, and the results of pass 1 must not have changed;
+#   pass 3  every writeable result of pass 1 and 2 is overwritten by the
+#           caller, then the calls are repeated (canonical order): still the
+#           values for fill B.
+#
+# ``form`` is the documented array-like container the values travel in.
+
+HIST_FORMS = ('buffer', 'view', 'readonly', 'list')
+_PAD = -777.25
+_GOLD = 0.3819660112501051
+
+
+def _second_fracs(fracs):
+    """Fractions of fill B: every entry moves by 0.38 of the interval
+    (mod 1), so no entry keeps its value."""
+    out = []
+    for f in fracs:
+        a = np.mod(np.asarray(f, dtype=float) + _GOLD, 1.0)
+        out.append(float(a) if a.shape == () else a.tolist())
+    return out
+
+
+def _intify(v):
+    """Nested lists / float with integer-valued entries as Python ints (the
+    docstring examples pass ``0``, ``[-1, 0, 1]`` ...)."""
+    if isinstance(v, list):
+        return [_intify(x) for x in v]
+    return int(v) if v == int(v) else v
+
+
+class _ParamObjects(object):
+    """The argument objects of the history clause.  ``groups`` is a list of
+    component lists (motion components, detector components); every group
+    becomes one positional argument (the component itself for a
+    one-parameter group, else a tuple of components)."""
+
+    def __init__(self, groups, form):
+        self.form = form
+        self.hold = []      # per group: list of objects
+        self.base = []      # per group: list of owning arrays (or None)
+        for comps in groups:
+            objs, bases = [], []
+            for c in comps:
+                shp = tuple(np.shape(c))
+                if form == 'buffer':
+                    b = np.full(shp, _PAD)
+                    objs.append(b)
+                    bases.append(None)
+                elif form == 'view':
+                    # every second entry of the last axis of a larger array
+                    big = np.full(shp[:-1] + (2 * shp[-1] + 1,) if shp
+                                  else (3,), _PAD)
+                    v = big[..., 1::2] if shp else big[1:2].reshape(())
+                    objs.append(v)
+                    bases.append(big)
+                else:
+                    objs.append(None)
+                    bases.append(None)
+            self.hold.append(objs)
+            self.base.append(bases)
+        self.tuples = [None] * len(groups)
+        self.values = None
+
+    def fill(self, groups):
+        self.values = [[np.array(c, dtype=float) for c in comps]
+                       for comps in groups]
+        for gi, comps in enumerate(self.values):
+            for ci, c in enumerate(comps):
+                if self.form in ('buffer', 'view'):
+                    self.hold[gi][ci][...] = c
+                elif self.form == 'readonly':
+                    if c.shape == ():
+                        self.hold[gi][ci] = np.float64(c)
+                    else:
+                        a = c.copy()
+                        a.flags.writeable = False
+                        self.hold[gi][ci] = a
+                    self.tuples[gi] = None
+                else:
+                    new = _intify(c.tolist())
+                    old = self.hold[gi][ci]
+                    if isinstance(old, list) and isinstance(new, list):
+                        old[:] = new            # the same list, refilled
+                    else:
+                        self.hold[gi][ci] = new
+                        self.tuples[gi] = None
+
+    def args(self, sel):
+        out = []
+        for gi in sel:
+            objs = self.hold[gi]
+            if len(objs) == 1:
+                out.append(objs[0])
+            else:
+                if self.tuples[gi] is None:
+                    self.tuples[gi] = tuple(objs)
+                out.append(self.tuples[gi])
+        return out
+
+    def changed(self):
+        """Description of the first argument object whose content is no
+        longer what the harness put there, or None."""
+        for gi, comps in enumerate(self.values):
+            for ci, c in enumerate(comps):
+                cur = np.array(self.hold[gi][ci], dtype=float)
+                if cur.shape != c.shape or not np.array_equal(cur, c):
+                    return 'parameter group {} component {}: {} -> {}'.format(
+                        gi, ci, c.tolist(), cur.tolist())
+                big = self.base[gi][ci]
+                if big is not None:
+                    pad = big[..., 0::2] if c.shape else big[[0, 2]]
+                    if not np.all(pad == _PAD):
+                        return ('parameter group {} component {}: entries of '
+                                'the owning array outside the view were '
+                                'written'.format(gi, ci))
+        return None
+
+
+def _subset(entries, limit=12):
+    if len(entries) <= limit:
+        return entries
+    pick = sorted(set(int(round(i)) for i in
+                      np.linspace(0, len(entries) - 1, limit)))
+    return [entries[i] for i in pick]
+
+
+def _table(ents, fn):
+    """``fill index -> {entry index: fn(values)}``, evaluated lazily once."""
+    memo = {}
+
+    def get(fill):
+        if fill not in memo:
+            memo[fill] = {idx: np.asarray(fn(vals), dtype=float)
+                          for idx, vals in ents[fill]}
+        return memo[fill]
+    return get
+
+
+def _detector_history_calls(det, refdet, D, shape_d, ents, sel, tol, amp):
+    """History-clause entries for the four detector methods (expected values
+    from the reference detector)."""
+    n = D + 1
+    r = refdet.radius or 0.0
+    return [
+        ('surface', det.surface, sel, {}, shape_d, (n,),
+         _table(ents, lambda v: refdet.surface(_single_arg(v))), tol),
+        ('surface_deriv', det.surface_deriv, sel, {}, shape_d,
+         (n,) if D == 1 else (2, 3),
+         _table(ents, lambda v: refdet.deriv(_single_arg(v))), tol),
+        ('surface_normal', det.surface_normal, sel, {}, shape_d, (n,),
+         _table(ents, lambda v: refdet.normal(_single_arg(v))),
+         K_TOL * EPS * amp),
+        ('surface_measure', det.surface_measure, sel, {}, shape_d, (),
+         _table(ents, lambda v: refdet.measure(_single_arg(v))),
+         tol * (1 + r)),
+    ]
+
+
+def _check_history(calls, pobj, fills, hist, who, strata):
+    """``calls``: list of ``(label, function, group selection, kwargs,
+    shape, tail, expected, tolerance[, overwrite])`` where ``expected(fill
+    index)`` maps entry index -> reference value (entries to compare),
+    ``tolerance`` is a float or a list (per fill) of dicts entry index ->
+    float, and ``overwrite`` says whether the caller writes into the
+    returned array before pass 3 (geometry-level evaluations only: the flat
+    detectors document their derivative as "evaluating to `axis`", i.e. may
+    hand out the stored vector).  ``fills``: the two lists of parameter
+    groups."""
+    form = pobj.form
+    sig = 'C19|history|{}|{}|' + who
+    rank = {'surface': 0, 'surface_deriv': 1, 'surface_normal': 2,
+            'surface_measure': 3, 'rotation_matrix': 4}
+
+    def whole_pass(seq, step):
+        # run the whole pass; of several failures report the one in the
+        # most elementary method (the composite ones inherit it)
+        bad = []
+        for i in seq:
+            try:
+                step(i)
+            except Violation as v:
+                bad.append((rank.get(calls[i][0], 5 + i), i, v))
+        if bad:
+            v = min(bad, key=lambda b: b[:2])[2]
+            raise Violation(v.signature, '[arguments passed as {}] {}'.format(
+                form, v.detail))
+
+    def call(c, what):
+        label, f, sel, kw = c[:4]
+        try:
+            out = f(*pobj.args(sel), **kw)
+        except Exception as e:  # noqa
+            site = _odl_frame(e)
+            if site is None:
+                raise
+            raise Violation(sig.format('raise:' + site, label),
+                            '{} ({}): {}: {}'.format(
+                                label, what, type(e).__name__, str(e)[:300]))
+        bad = pobj.changed()
+        if bad is not None:
+            raise Violation(sig.format('argument-modified', label),
+                            '{} ({}) changed its argument; {}'.format(
+                                label, what, bad))
+        return out
+
+    def compare(c, got, fill, clause, what):
+        label, shape, tail, expected, tol = c[0], c[4], c[5], c[6], c[7]
+        if _shape_of(got) != tuple(shape) + tuple(tail):
+            raise Violation(sig.format('shape', label),
+                            '{} ({}): shape {} expected {} + {}'.format(
+                                label, what, _shape_of(got), tuple(shape),
+                                tuple(tail)))
+        arr = np.asarray(got, dtype=float)
+        for idx, want in expected(fill).items():
+            t = tol[fill][idx] if isinstance(tol, list) else tol
+            ok, err = _close(arr[idx], want, t)
+            if not ok:
+                raise Violation(
+                    sig.format(clause, label),
+                    '{} ({}), entry {}: got {} but the parameters held there '
+                    'give {} (err {:.3g}, tol {:.3g})'.format(
+                        label, what, idx, arr[idx].tolist(),
+                        np.asarray(want).tolist(), err, t))
+
+    if not calls:
+        return
+    order = list(range(len(calls)))
+    keys = hist.get('order') or []
+    perm = sorted(order, key=lambda i: (keys[i % len(keys)] if keys else -i,
+                                        -i))
+    pobj.fill(fills[0])
+    first = {}
+
+    def step1(i):
+        # values of this pass are decided by the vectorised-vs-single clauses
+        first[i] = call(calls[i], 'first values')
+    whole_pass(order, step1)
+    kept = {i: np.array(v, dtype=float) for i, v in first.items()}
+    pobj.fill(fills[1])
+    second = {}
+
+    def step2(i):
+        second[i] = call(calls[i], 'objects refilled in place')
+        compare(calls[i], second[i], 1, 'refill-value',
+                'same argument objects, new values written into them')
+    whole_pass(perm, step2)
+    for i in order:
+        if not np.array_equal(np.asarray(first[i], dtype=float), kept[i],
+                              equal_nan=True):
+            raise Violation(sig.format('result-aliased', calls[i][0]),
+                            'the array returned by the first call of {} '
+                            'changed during later calls'.format(calls[i][0]))
+    wrote = 0
+    again = [i for i in order if len(calls[i]) > 8 and calls[i][8]]
+    for res in (first, second):
+        for i in again:
+            r = res[i]
+            if isinstance(r, np.ndarray) and r.flags.writeable and r.size:
+                r[...] = np.nan
+                wrote += 1
+    if wrote:
+        def step3(i):
+            third = call(calls[i], 'after the caller overwrote the results')
+            compare(calls[i], third, 1, 'result-overwritten',
+                    'same arguments again after the caller wrote into the '
+                    'arrays returned before')
+        whole_pass(again, step3)
+    strata.append('history:' + form)
+    if wrote:
+        strata.append('history-results-overwritten')
 
 
 # --------------------------------------------------------------------------
@@ -1383,8 +1905,23 @@ def run_detector(desc):
                             'result shape {}'.format(_shape_of(out)))
         strata.append('bad-shapes:within-d')
 
+    def history():
+        hist = desc.get('hist') or {}
+        form = hist.get('form', 'buffer')
+        if form not in HIST_FORMS:
+            raise HarnessError('unknown history form {!r}'.format(form))
+        d2 = _params_from_fracs(_second_fracs(pat['d']), dlo, dhi)
+        fills = [[list(dcomps)], [d2]]
+        shape_d = _bshape(dcomps)
+        ents = [_subset(list(_entries(f[0], shape_d))) for f in fills]
+        calls = _detector_history_calls(det, refdet, len(dlo), shape_d, ents,
+                                        [0], dsingle['tol'], 1.0)
+        _check_history(calls, _ParamObjects(fills[0], form), fills, hist,
+                       dname, strata)
+
     if pat.get('bad') == 'within-d' and len(dlo) == 2:
         col.run(bad_within)
+    col.run(history)
     col.run(check_detector_measure_vec, det, kind, dcomps, meas, strata)
     col.finish()
     nontriv = (dd.get('axes_mode') != 'default' or kind in ('circ', 'cyl',
@@ -1734,8 +2271,183 @@ def run_astra(desc):
     return Outcome('ok', strata=strata, nontrivial=True)
 
 
+# --------------------------------------------------------------------------
+# rotation helpers of odl.tomo.util.utility called directly
+
+def _arr_or_scalar(v):
+    return float(v) if np.shape(v) == () else np.array(v, dtype=float)
+
+
+def run_util(desc):
+    """The documented rotation helpers with the argument forms their
+    docstrings admit (all geometry classes are built on them):
+
+    euler_matrix(phi[, theta[, psi]])  "ZXZ"; a ``None`` among three angles
+        "is equivalent to 0.0"; shape ``broadcast(phi, theta, psi).shape +
+        (ndim, ndim)``;
+    axis_rotation_matrix(axis, angle)  Rodrigues, unit axis;
+    axis_rotation(axis, angle, vectors, axis_shift)  rotation about the line
+        through ``axis_shift`` ("only shifts perpendicular to axis matter");
+    rotation_matrix_from_to(u, v)  a rotation taking u/|u| to v/|v|, about
+        ``u x v`` (Notes);
+    perpendicular_vector(vec)  same shape, ``dot(vec, perp_vec) == 0`` along
+        the last axis.
+    """
+    from odl.tomo.util import utility as ut
+    fn = desc['fn']
+    strata = ['util:' + fn, 'util']
+    sig = 'C19|util|' + fn + '|{}'
+
+    def rotation(R, want, ang, where):
+        t = K_TOL * EPS * (1 + ang)
+        if _shape_of(R) != _shape_of(want):
+            raise Violation(sig.format('shape'), '{}: shape {}'.format(
+                where, _shape_of(R)))
+        R = np.asarray(R, dtype=float)
+        if rr.orthonormality_defect(R) > t or abs(rr.det(R) - 1.0) > t:
+            raise Violation(sig.format('orthonormal'),
+                            '{}: R = {} (R^T R - I = {:.3g}, det {})'.format(
+                                where, R.tolist(),
+                                rr.orthonormality_defect(R), rr.det(R)))
+        _require(R, want, t, sig.format('value'), where)
+
+    if fn == 'euler_matrix':
+        angs = [None if a is None else _arr_or_scalar(a)
+                for a in desc['angles']]
+        strata.append('util-euler:' + ''.join(
+            'n' if a is None else 's' if np.shape(a) == () else 'a'
+            for a in angs))
+        given = [a for a in angs if a is not None]
+        shape = np.broadcast(*given).shape
+        nd = 2 if len(angs) == 1 else 3
+        keep = [None if a is None else np.array(a) for a in angs]
+        got = _call('C19|util|raise', fn, ut.euler_matrix, *angs)
+        if _shape_of(got) != tuple(shape) + (nd, nd):
+            raise Violation(sig.format('shape'),
+                            'shape {} expected {} + ({}, {})'.format(
+                                _shape_of(got), tuple(shape), nd, nd))
+        full = [np.broadcast_to(0.0 if a is None else a, shape)
+                for a in angs]
+        got = np.asarray(got, dtype=float)
+        for idx in np.ndindex(*shape):
+            v = [float(f[idx]) for f in full]
+            want = rr.rot2d(v[0]) if nd == 2 else rr.euler_zxz(*v)
+            rotation(got[idx], want, max(abs(x) for x in v),
+                     'euler_matrix at {}'.format(v))
+        for a, k in zip(angs, keep):
+            if a is not None and not np.array_equal(a, k):
+                raise Violation(sig.format('argument-modified'),
+                                'angle array changed from {} to {}'.format(
+                                    k.tolist(), np.asarray(a).tolist()))
+        return Outcome('ok', strata=strata, nontrivial=True)
+
+    if fn in ('axis_rotation_matrix', 'axis_rotation'):
+        axis = rr.unit(desc['axis'])
+        axis_arg = axis if desc.get('argtype') == 'array' else axis.tolist()
+        ang = _arr_or_scalar(desc['angle'])
+        if fn == 'axis_rotation_matrix':
+            shape = np.shape(ang)
+            got = _call('C19|util|raise', fn, ut.axis_rotation_matrix,
+                        axis_arg, ang)
+            if _shape_of(got) != tuple(shape) + (3, 3):
+                raise Violation(sig.format('shape'),
+                                'shape {} expected {} + (3, 3)'.format(
+                                    _shape_of(got), tuple(shape)))
+            got = np.asarray(got, dtype=float)
+            for idx in np.ndindex(*shape):
+                a = float(np.asarray(ang)[idx])
+                rotation(got[idx], rr.rodrigues(axis, a), abs(a),
+                         'axis_rotation_matrix({}, {})'.format(
+                             axis.tolist(), a))
+            strata.append('util-angle-rank:{}'.format(len(shape)))
+            return Outcome('ok', strata=strata, nontrivial=True)
+        vec = np.array(desc['vectors'], dtype=float)
+        vec_arg = vec.copy() if desc.get('argtype') == 'array' \
+            else vec.tolist()
+        kw = {}
+        shift = np.zeros(3)
+        if desc.get('shift') is not None:
+            shift = np.array(desc['shift'], dtype=float)
+            kw['axis_shift'] = (shift.copy() if desc.get('argtype') == 'array'
+                                else shift.tolist())
+            strata.append('util-axis-shift')
+        got = _call('C19|util|raise', fn, ut.axis_rotation, axis_arg,
+                    float(ang), vec_arg, **kw)
+        got = np.asarray(got, dtype=float)
+        rows = np.atleast_2d(vec)
+        if got.size != rows.size or got.shape[-1] != 3:
+            raise Violation(sig.format('shape'), 'shape {} for vectors of '
+                            'shape {}'.format(got.shape, vec.shape))
+        centre = shift - np.dot(axis, shift) * axis
+        R = rr.rodrigues(axis, float(ang))
+        want = np.array([centre + R.dot(v - centre) for v in rows])
+        S = 1.0 + float(np.max(np.abs(rows))) + float(np.max(np.abs(shift)))
+        _require(got.reshape(rows.shape), want,
+                 K_TOL * EPS * (1 + abs(float(ang))) * S, sig.format('value'),
+                 'axis_rotation({}, {}, {}, axis_shift={})'.format(
+                     axis.tolist(), float(ang), vec.tolist(), shift.tolist()))
+        for name, a, k in (('vectors', vec_arg, vec),
+                           ('axis_shift', kw.get('axis_shift'), shift)):
+            if isinstance(a, np.ndarray) and not np.array_equal(a, k):
+                raise Violation(sig.format('argument-modified'),
+                                '{} changed from {} to {}'.format(
+                                    name, k.tolist(), a.tolist()))
+        strata.append('util-vectors-rank:{}'.format(vec.ndim))
+        return Outcome('ok', strata=strata, nontrivial=True)
+
+    if fn == 'rotation_matrix_from_to':
+        u = np.array(desc['u'], dtype=float)
+        v = np.array(desc['v'], dtype=float)
+        got = _call('C19|util|raise', fn, ut.rotation_matrix_from_to,
+                    u.tolist(), v.tolist())
+        nd = len(u)
+        # vectors keep >= 0.1 rad from collinear: arccos amplification <= 12
+        t = 12 * K_TOL * EPS
+        if _shape_of(got) != (nd, nd):
+            raise Violation(sig.format('shape'), 'shape {}'.format(
+                _shape_of(got)))
+        got = np.asarray(got, dtype=float)
+        if rr.orthonormality_defect(got) > t or abs(rr.det(got) - 1) > t:
+            raise Violation(sig.format('orthonormal'), 'R = {}'.format(
+                got.tolist()))
+        _require(got.dot(rr.unit(u)), rr.unit(v), t, sig.format('maps'),
+                 'R u/|u| vs v/|v| for u = {}, v = {}'.format(
+                     u.tolist(), v.tolist()))
+        _require(got, rr.rotation_from_to(u, v), t, sig.format('value'),
+                 'rotation about u x v (Notes)')
+        strata.append('util-from-to:{}d'.format(nd))
+        return Outcome('ok', strata=strata, nontrivial=True)
+
+    if fn == 'perpendicular_vector':
+        vec = np.array(desc['vec'], dtype=float)
+        arg = vec.copy() if desc.get('argtype') == 'array' else vec.tolist()
+        got = _call('C19|util|raise', fn, ut.perpendicular_vector, arg)
+        if _shape_of(got) != vec.shape:
+            raise Violation(sig.format('shape'), 'shape {} for input shape '
+                            '{}'.format(_shape_of(got), vec.shape))
+        got = np.asarray(got, dtype=float)
+        dots = np.sum(got * vec, axis=-1)
+        lens = np.sqrt(np.sum(got * got, axis=-1))
+        vlen = np.sqrt(np.sum(vec * vec, axis=-1))
+        if not np.all(np.isfinite(got)) or np.any(lens == 0) or \
+                np.any(np.abs(dots) > 8 * EPS * lens * vlen):
+            raise Violation(sig.format('perpendicular'),
+                            'perpendicular_vector({}) = {}: dot products {}'
+                            ''.format(vec.tolist(), got.tolist(),
+                                      np.asarray(dots).tolist()))
+        if isinstance(arg, np.ndarray) and not np.array_equal(arg, vec):
+            raise Violation(sig.format('argument-modified'),
+                            'vec changed to {}'.format(arg.tolist()))
+        strata.append('util-perp:rank{}|{}d'.format(vec.ndim,
+                                                     vec.shape[-1]))
+        return Outcome('ok', strata=strata, nontrivial=True)
+    raise HarnessError('unknown util function {!r}'.format(fn))
+
+
 def run_case(desc):
     kind = desc['kind']
+    if kind == 'util':
+        return run_util(desc)
     try:
         if kind == 'geom':
             return run_geom(desc)
@@ -2097,6 +2809,16 @@ def _ncells(p):
 
 
 @st.composite
+def _hist_desc(draw):
+    """Container of the parameter values and the call order of the second
+    pass of the history clause (sort keys; ties keep the reverse order)."""
+    return {'form': draw(st.sampled_from(['buffer', 'buffer', 'view',
+                                          'readonly', 'list'])),
+            'order': draw(st.lists(st.integers(0, 3), min_size=3,
+                                   max_size=3))}
+
+
+@st.composite
 def _geom_case(draw, astra=False):
     cls = draw(st.sampled_from(
         ['fan', 'fan', 'cone', 'cone', 'cone', 'par3d_axis', 'par3d_axis',
@@ -2184,7 +2906,8 @@ def _geom_case(draw, astra=False):
     desc = {'kind': 'geom', 'probe': draw(st.integers(0, 4)) == 0,
             'g': g, 'apart': apart, 'dpart': dpart,
             'pat': draw(_pattern(M, len(dpart), restricted=shifted)),
-            'group': [draw(FRACS), draw(FRACS)], 'slice': None}
+            'group': [draw(FRACS), draw(FRACS)], 'slice': None,
+            'hist': draw(_hist_desc())}
     if cls != 'par3d_euler' and draw(st.integers(0, 2)) == 0:
         desc['slice'] = draw(_slice_desc(_ncells(apart[0]), dpart))
     return desc
@@ -2210,7 +2933,8 @@ def _detector_case(draw):
     dpart = draw(_det_parts(kind))
     return {'kind': 'detector', 'probe': draw(st.integers(0, 4)) == 0,
             'det': dd, 'dpart': dpart,
-            'pat': draw(_pattern(0, len(dpart), joint=False))}
+            'pat': draw(_pattern(0, len(dpart), joint=False)),
+            'hist': draw(_hist_desc())}
 
 
 @st.composite
@@ -2272,10 +2996,93 @@ def _factory_case(draw):
     return desc
 
 
+@st.composite
+def _angle_vals(draw, shape):
+    special = st.sampled_from([0.0, np.pi / 2, np.pi, -np.pi / 2, 2 * np.pi])
+    one = st.one_of(special, st.floats(-7.0, 7.0).map(_r))
+    if shape is None:
+        return draw(one)
+    size = int(np.prod(shape, dtype=int))
+    vals = draw(st.lists(one, min_size=size, max_size=size))
+    return np.array(vals, dtype=float).reshape(shape).tolist()
+
+
+@st.composite
+def _util_case(draw):
+    fn = draw(st.sampled_from(['euler_matrix', 'euler_matrix',
+                               'axis_rotation_matrix', 'axis_rotation',
+                               'axis_rotation', 'rotation_matrix_from_to',
+                               'perpendicular_vector']))
+    desc = {'kind': 'util', 'fn': fn,
+            'argtype': draw(st.sampled_from(['list', 'array']))}
+    if fn == 'euler_matrix':
+        count = draw(st.sampled_from([1, 2, 3, 3]))
+        k, ll = draw(st.integers(1, 3)), draw(st.integers(1, 3))
+        shapes = draw(st.sampled_from([
+            [None] * 3, [(k,)] * 3, [(k, ll)] * 3,
+            [(k, 1), (1, ll), None], [None, (k,), (k,)],
+            [(k,), None, None], [(k, 1, 1), (1, ll, 1), (1, 1, 2)]]))
+        angles = [draw(_angle_vals(shp)) for shp in shapes[:count]]
+        if count == 3:
+            drop = draw(st.sampled_from([None, None, 1, 2]))
+            if drop is not None:
+                angles[drop] = None
+        desc['angles'] = angles
+    elif fn in ('axis_rotation_matrix', 'axis_rotation'):
+        desc['axis'] = [float(x) for x in draw(st.one_of(
+            st.sampled_from([[0.0, 0.0, 1.0], [1.0, 0.0, 0.0],
+                             [0.0, -1.0, 0.0]]), _any_dir(3)))]
+        if fn == 'axis_rotation_matrix':
+            k, ll = draw(st.integers(1, 3)), draw(st.integers(1, 3))
+            desc['angle'] = draw(_angle_vals(draw(st.sampled_from(
+                [None, (k,), (k, ll), (1,)]))))
+        else:
+            desc['angle'] = draw(_angle_vals(None))
+            nvec = draw(st.sampled_from([None, 1, 2, 4]))
+            vec = st.lists(st.floats(-5, 5).map(_r), min_size=3, max_size=3)
+            desc['vectors'] = draw(vec) if nvec is None else draw(
+                st.lists(vec, min_size=nvec, max_size=nvec))
+            desc['shift'] = draw(st.one_of(st.none(), vec))
+    elif fn == 'rotation_matrix_from_to':
+        if draw(st.booleans()):
+            u = draw(_any_dir(2))
+            th = draw(st.floats(0.1, np.pi - 0.1)) * draw(
+                st.sampled_from([1.0, -1.0]))
+            v = rr.rot2d(th).dot(u)
+        else:
+            u = draw(_any_dir(3))
+            v = draw(_dir_near(u))
+        desc['u'] = _round_vec(u * draw(st.sampled_from(SCALES)))
+        desc['v'] = _round_vec(v * draw(st.sampled_from(SCALES)))
+    else:
+        n = draw(st.sampled_from([2, 3, 3]))
+        lead = draw(st.sampled_from([(), (1,), (3,), (2, 2)]))
+        size = int(np.prod(lead, dtype=int))
+        rows = []
+        for _ in range(size):
+            form = draw(st.sampled_from(['generic', 'generic', 'unit',
+                                         'last-only']))
+            if form == 'generic':
+                v = [_r(draw(st.floats(-5, 5))) for _ in range(n)]
+                if not any(v):
+                    v[0] = 1.0
+            elif form == 'unit':
+                v = [0.0] * n
+                v[draw(st.integers(0, n - 1))] = draw(
+                    st.sampled_from([1.0, -2.0]))
+            else:
+                v = [0.0] * (n - 1) + [_r(draw(st.floats(0.5, 5)))]
+            rows.append(v)
+        desc['vec'] = np.array(rows, dtype=float).reshape(
+            tuple(lead) + (n,)).tolist()
+    return desc
+
+
 def strategy(tier):
     return st.one_of(_geom_case(), _geom_case(), _geom_case(), _geom_case(),
-                     _geom_case(), _geom_case(), _detector_case(),
-                     _factory_case(), _geom_case(astra=True))
+                     _geom_case(), _geom_case(), _geom_case(),
+                     _detector_case(), _factory_case(),
+                     _geom_case(astra=True), _util_case())
 
 
 REQUIRED_STRATA = [
@@ -2294,4 +3101,8 @@ REQUIRED_STRATA = [
     'astra-vec:astra_conebeam_3d_geom_to_vec',
     'astra-vec:astra_conebeam_2d_geom_to_vec',
     'astra-vec:astra_parallel_3d_geom_to_vec', 'det-offcentre',
+    'history:buffer', 'history:view', 'history:readonly', 'history:list',
+    'angles-direct', 'util:euler_matrix', 'util:axis_rotation_matrix',
+    'util:axis_rotation', 'util:rotation_matrix_from_to',
+    'util:perpendicular_vector', 'util-axis-shift',
 ]
